@@ -43,10 +43,11 @@ void oracle_wellformed(int iface) {
         if (t->iface != iface) { vf_violation("sent-on-wrong-interface", "frame handed to interface %u while serving interface %d", t->iface, iface); continue; }
         wd_frame f;
         if (wd_decode(tr_bytes(t), t->len, &f) != 0) { vf_violation("malformed:shorter-than-base-header", "transmitted %u bytes", t->len); continue; }
-        const char *why = wd_wellformed(&f, W.iface[iface].mac, W.iface[iface].mtu);
+        size_t eff = W.env.mtu_alt ? (W.iface[iface].mtu == 1500 ? 9216 : 1500) : W.iface[iface].mtu;
+        const char *why = wd_wellformed(&f, W.iface[iface].mac, eff);
         if (why) {
             char sig[120]; snprintf(sig, sizeof sig, "malformed:%s:op=0x%02x", why, f.opcode);
-            vf_violation(sig, "transmitted frame (opcode 0x%02x, %zu bytes, MTU %zu) is not well-formed: %s", f.opcode, f.len, W.iface[iface].mtu, why);
+            vf_violation(sig, "transmitted frame (opcode 0x%02x, %zu bytes, MTU %zu) is not well-formed: %s", f.opcode, f.len, eff, why);
         }
     }
 }
